@@ -45,7 +45,36 @@ def sibling(case):
             elif d[0] == 'ns':
                 walk(d[2])
     walk(s['file'])
+    # ... under the opposite runtime semantics (no multi-client port: it needs MTS)
+    pc = s['cfg']['ports']
+    flip = lambda pair: [pair[1], pair[0]]   # noqa: E731
+    s['cfg'] = dict(s['cfg'], ports={'p': flip(pc['p']), 'r': flip(pc['r'])})
     return s
+
+
+def mixed_semantics_cases(patterns=('MSM', 'SMS', 'MMS', 'SSM', 'SM', 'MS')):
+    """provides and requires ports whose configured semantics alternate in declaration order (explicit name sets),
+    so that anything that groups, sorts or partitions the ports by semantics shows"""
+    out = []
+    for pat in patterns:
+        for flip in (False, True):
+            pp = [f'p{k}' for k in range(len(pat))]
+            rp = [f'r{k}' for k in range(len(pat))]
+            ports = [[n, ['ICtl'], 'provides', False] for n in pp] + [[n, ['ICtl'], 'requires', False] for n in rp] + [['log', ['ILog'], 'requires', True]]
+            file = [['extern', ['Int'], 'int'],
+                    ['ns', ['My'], [['itf', ['ICtl'], [], [['Start', 'in', ['void'], [['n', ['Int'], 'in']]], ['Started', 'out', ['void'], [['n', ['Int'], 'in']]]]],
+                                    ['itf', ['ILog'], [], [['Write', 'in', ['void'], []]]],
+                                    ['comp', ['Mixed'], ports]]]]
+            rpat = pat if not flip else pat[::-1].replace('M', 'x').replace('S', 'M').replace('x', 'S')
+
+            def sel(names, pattern):
+                s = [n for n, k in zip(names, pattern) if k == 'S']
+                m = [n for n, k in zip(names, pattern) if k == 'M']
+                return [['s', s] if s else ['w', 'none'], ['s', m] if m else ['w', 'none']]
+            # (mixed STS/MTS *provides* ports are refused by the library: the provides side is uniform)
+            out.append({'file': file, 'cfg': {'file': 'Mixed.dzn', 'enc': ['My', 'Mixed'], 'fac': 'create' if flip else 'import',
+                                               'ports': {'p': sel(pp, ('S' if flip else 'M') * len(pp)), 'r': sel(rp, rpat)}}})
+    return out
 
 
 def tie_and_plans(cases):
